@@ -70,6 +70,13 @@ func (g *tg) exit(c ctx) gen.Stmt {
 	g.tag++
 	switch k {
 	case "return":
+		if g.chance(30, "bare-return") {
+			g.feat["exit-bare-return"]++
+			return &gen.Return{} // `return` without a value: compiled separately from `return x`
+		}
+		if g.chance(12, "multi-return") {
+			return &gen.Return{Xs: []gen.Expr{gen.IntLit(int64(100 + g.tag)), gen.IntLit(1)}}
+		}
 		return &gen.Return{Xs: []gen.Expr{gen.IntLit(int64(100 + g.tag))}}
 	case "throw":
 		return &gen.Throw{X: gen.StrLit(fmt.Sprintf("x%d", g.tag))}
@@ -404,7 +411,7 @@ func TestCheck(t *testing.T) {
 // x the whole thing in the called function or in its caller's callee.
 func enumerate(t *testing.T, rec *ev.Rec) {
 	forms := [][2]bool{{true, false}, {false, true}, {true, true}} // hasCatch, hasFinally
-	exits := []string{"none", "return", "throw", "div0", "break", "continue", "call-throws"}
+	exits := []string{"none", "return", "bare-return", "throw", "div0", "break", "continue", "call-throws"}
 	tag := 0
 	lg := func() gen.Stmt {
 		tag++
@@ -414,6 +421,8 @@ func enumerate(t *testing.T, rec *ev.Rec) {
 		switch kind {
 		case "return":
 			return []gen.Stmt{&gen.Return{Xs: []gen.Expr{gen.IntLit(77)}}}
+		case "bare-return":
+			return []gen.Stmt{&gen.Return{}}
 		case "throw":
 			return []gen.Stmt{&gen.Throw{X: gen.StrLit("boom")}}
 		case "div0":
